@@ -251,8 +251,6 @@ def gen_input(rng, paired, fastq, containers=("",), p_interleaved=0.3, p_multime
     if paired:
         layout = "interleaved" if rng.random() < p_interleaved else "two"
         if layout == "interleaved" and not fastq and rng.random() >= p_interleaved_fasta:
-            # interleaved FASTA input cannot be read with --cores > 1 (known finding KF-C06-1);
-            # only the checks that own that finding generate it
             layout = "two"
     nfiles = 2 if layout == "two" else 1
     conts, members = [], []
@@ -350,7 +348,7 @@ def default_profile():
         shorten_before_adapter=True,
         times=(1, 3),
         require_named=False,
-        p_interleaved_fasta=0.0,
+        p_interleaved_fasta=1.0,  # (was 0 while interleaved FASTA + --cores>1 was known finding KF-C06-1)
         rename_template=None,  # (single-end template, paired template) forced onto every case
         force_suffix=None,  # -y value forced onto every case (no --rename then)
         p_decoy_adapter=0.0,  # an extra named adapter that is never planted (its file stays empty)
